@@ -234,6 +234,21 @@ pub fn generate(seed: u64, tier: Tier) -> Case {
             params.notes.push("env:unusual_module_file_name".into());
         }
     }
+    // A module so deep in the tree that its path is longer than PATH_MAX: it can be created and
+    // walked step by step, but system calls that take the whole path fail for it
+    // (ENAMETOOLONG). A build that meets such a failure reports it; it does not carry on
+    // without the module.
+    if rng.chance(1, 120) {
+        let seg = "d".repeat(*rng.pick(&[200usize, 250]));
+        let depth = 4200 / seg.len() + 1;
+        let dir: String = (0..depth).map(|k| format!("{seg}{k}/")).collect();
+        let n = rng.below(100);
+        files.push((
+            format!("{dir}deep.pyxis"),
+            format!("#[align(4)]\npub type Deep{n} {{ pub a: u32 }}\n"),
+        ));
+        params.notes.push("env:module_path_longer_than_path_max".into());
+    }
     let mut world = World::from_files(ptr, files);
 
     // Stray things in the input tree.
